@@ -1853,3 +1853,283 @@ Example ex_history_run :
   let ops := [OIns [(0, 1); (2, 3)]; OIns []; OIns [(1, 7); (3, 4)]; OMsa 2 0 1; OSr 0 3; OZe 0 3; OAdd 0 0; OMta 0 (-1) 2] in
   d_cols (fold_left (d_step false 5 4) ops (a_abs 5 4 (a_empty 4))) = [Some [0; 0; 1; 0]; Some [0; 0; 1; 2]; Some [1; 3; 1; 0]].
 Proof. vm_compute. reflexivity. Qed.
+
+(* ================================================================ emptiness and zero-entry tests through histories:
+   the zero-freeness invariant (prime characteristic) *)
+Definition c_zf (c : acol) : Prop :=
+  match c with
+  | ASp l => nonzero l
+  | AHeap _ => True
+  | ALazy z => nonzero (fst z) /\ NoDup (snd z) /\ (forall r, In r (snd z) -> shas (fst z) r = true)
+  end.
+
+Lemma nonzero_filter f l : nonzero l -> nonzero (filter f l).
+Proof. intros H e He. apply filter_In in He. apply H. tauto. Qed.
+Lemma nonzero_nil : nonzero [].
+Proof. intros e []. Qed.
+Lemma nonzero_scale p v l : prime p -> v mod p <> 0 -> reduced p l -> nonzero l ->
+  nonzero (map (fun e => (fst e, fmul p (snd e) (v mod p))) l).
+Proof.
+  intros Hp Hv R N e He. apply in_map_iff in He. destruct He as [e0 [<- He0]]. cbn [snd]. unfold fmul.
+  assert (0 < p) by (destruct Hp; lia).
+  apply prime_mul_nonzero; [exact Hp| |pose proof (Z.mod_pos_bound v p ltac:(lia)); lia].
+  pose proof (R e0 He0). pose proof (N e0 He0). lia.
+Qed.
+Lemma shas_filter_other f l r : (forall e, In e l -> fst e = r -> f e = true) -> shas (filter f l) r = shas l r.
+Proof.
+  induction l as [|[a b] t IH]; intros H; [reflexivity|]. cbn [filter shas].
+  assert (Ht : forall e, In e t -> fst e = r -> f e = true) by (intros e He; apply H; right; exact He).
+  destruct (f (a, b)) eqn:E; cbn [shas].
+  - rewrite IH by exact Ht. reflexivity.
+  - rewrite IH by exact Ht. destruct (a =? r) eqn:E2; [|reflexivity].
+    assert (a = r) by lia. subst a. rewrite (H (r, b)) in E; [discriminate|left; reflexivity|reflexivity].
+Qed.
+
+Lemma lz_zf_fresh l : nonzero l -> c_zf (ALazy (l, [])).
+Proof. intros H. cbn [c_zf fst snd]. split; [exact H|]. split; [constructor|intros r []]. Qed.
+Lemma nonzero_live z : nonzero (fst z) -> nonzero (lz_live z).
+Proof. intros H. apply nonzero_filter. exact H. Qed.
+
+Lemma column_ops_keep_zf p val t s : prime p -> 0 <= val < p -> c_wf p t -> c_wf p s -> same_kind t s -> c_zf t -> c_zf s ->
+  c_zf (c_add p t s) /\ c_zf (c_mta p val t s) /\ c_zf (c_msa (all_fixed false) p val t s).
+Proof.
+  intros Hp Hv Wt Ws K Zt Zs.
+  destruct t as [lt|ht|zt]; destruct s as [ls|hs|zs]; try contradiction; cbn [c_add c_mta c_msa c_wf c_zf c_raw] in *.
+  - destruct Wt, Ws. apply sp_ops_nonzero; assumption.
+  - tauto.
+  - destruct Wt as [St Rt]. destruct Ws as [Ss Rs]. destruct Zt as [Nt [Dt Et]]. destruct Zs as [Ns [Ds Es]].
+    destruct (sp_ops_nonzero p val (lz_live zt) (lz_live zs) Hp Hv (reduced_live p zt Rt) (reduced_live p zs Rs)
+                (nonzero_live zt Nt) (nonzero_live zs Ns)) as [A1 [A2 A3]].
+    assert (NLs : nonzero (lz_live zs)) by (apply nonzero_live; exact Ns).
+    assert (Zt : c_zf (ALazy zt)) by (cbn [c_zf]; tauto).
+    split; [|split].
+    + unfold lz_add. destruct (fst zs); [exact Zt|]. destruct (fst zt); apply lz_zf_fresh; [exact NLs|exact A1].
+    + unfold lz_mta. destruct (val =? 0); cbv beta iota zeta; cbn [fst snd]; [apply lz_zf_fresh; exact NLs|].
+      destruct zt as [[|e0 l0] er]; cbn [fst snd]; apply lz_zf_fresh; [exact NLs|exact A2].
+    + unfold lz_msa. destruct (val =? 0); [exact Zt|]. destruct (fst zs); [exact Zt|apply lz_zf_fresh; exact A3].
+Qed.
+
+Lemma c_scale_keeps_zf p v c : prime p -> c_wf p c -> c_zf c -> c_zf (c_scale p v c).
+Proof.
+  intros Hp W Z. unfold c_scale. destruct c as [l|h|z]; cbn [c_wf c_zf] in *.
+  - destruct (v mod p =? 0) eqn:E; cbn [c_zf]; [apply nonzero_nil|]. destruct W. apply nonzero_scale; try assumption. lia.
+  - destruct (v mod p =? 0); exact I.
+  - destruct (v mod p =? 0) eqn:E; cbn [c_zf fst snd]; [split; [apply nonzero_nil|split; [constructor|intros r []]]|].
+    destruct W as [S R]. destruct Z as [N [D Es]]. split; [apply nonzero_scale; try assumption; lia|]. split; [exact D|].
+    intros r Hr. rewrite (shas_map (fun x => fmul p x (v mod p))). apply Es. exact Hr.
+Qed.
+
+Lemma c_clear_row_keeps_zf ra p c q : c_wf p c -> c_zf c -> c_zf (c_clear_row (all_fixed ra) p c q).
+Proof.
+  intros W Z. destruct c as [l|h|z]; cbn [c_clear_row c_zf c_wf all_fixed f_lazy_fix f_ra] in *.
+  - unfold sdel. apply nonzero_filter. exact Z.
+  - exact I.
+  - destruct Z as [N [D Es]]. destruct ra.
+    + unfold lz_clear_row. destruct (shas (lz_live z) q) eqn:E; [|cbn [c_zf]; tauto]. cbn [c_zf fst snd].
+      split; [unfold sdel; apply nonzero_filter; exact N|]. split; [exact D|].
+      intros r Hr. unfold sdel. rewrite shas_filter_other; [apply Es; exact Hr|].
+      intros e He Hfe. cbn beta. destruct (fst e =? q) eqn:E2; [|reflexivity].
+      (* q is live, hence not erased, hence different from the erased row r *)
+      assert (Hq : fst e = q) by lia. assert (Hrq : r = q) by congruence.
+      assert (Hz : zmem q (snd z) = true) by (apply zmem_In; rewrite <- Hrq; exact Hr).
+      assert (Hl : shas (lz_live z) q = false).
+      { unfold lz_live. clear -Hz. induction (fst z) as [|[a b] t IH]; [reflexivity|]. cbn [filter fst].
+        destruct (zmem a (snd z)) eqn:Ea; cbn [negb]; [exact IH|]. cbn [shas]. rewrite IH.
+        destruct (a =? q) eqn:Eq; [assert (a = q) by lia; subst a; congruence|reflexivity]. }
+      congruence.
+    + pose proof (lazyvec_clear_wf z q) as Hwf. unfold lz_wf in Hwf. destruct W as [S R].
+      specialize (Hwf (conj S (conj N (conj D Es)))). tauto.
+Qed.
+Lemma c_clear_keeps_zf c : c_zf (c_clear c).
+Proof. destruct c; cbn [c_clear c_zf fst snd]; [apply nonzero_nil|exact I|]. split; [apply nonzero_nil|split; [constructor|intros r []]]. Qed.
+Lemma c_reorder_keeps_zf p f c : c_zf c -> c_zf (c_reorder p f c).
+Proof.
+  intros Z. assert (H : forall l, nonzero l -> nonzero (ssort (relabel f l))).
+  { intros l N e He. apply (proj1 (in_ssort _ _)) in He. unfold relabel in He. apply in_map_iff in He.
+    destruct He as [e0 [<- He0]]. cbn [snd]. apply N. exact He0. }
+  destruct c as [l|h|z]; cbn [c_reorder c_zf] in *.
+  - change (map _ l) with (relabel f l). apply H. exact Z.
+  - exact I.
+  - unfold lz_reorder. change (map _ ?L) with (relabel f L). apply lz_zf_fresh. apply H. apply nonzero_live. tauto.
+Qed.
+Lemma c_make_zf kind p es : (forall e, In e es -> snd e mod p <> 0) -> c_zf (c_make kind p es).
+Proof.
+  intros H. assert (N : nonzero (entries_of p es)).
+  { intros e He. unfold entries_of in He. apply in_map_iff in He. destruct He as [e0 [<- He0]]. cbn [snd]. apply H. exact He0. }
+  unfold c_make. destruct (kind =? 1); [exact I|]. destruct (kind =? 2); [apply lz_zf_fresh; exact N|exact N].
+Qed.
+
+(* the tests answer the content, column by column *)
+Lemma c_nonzero_content p c q : c_zf c -> c_nonzero p c q = negb (c_get p c q =? 0).
+Proof.
+  intros Z. destruct c as [l|h|z]; cbn [c_nonzero c_get c_zf] in *.
+  - destruct (shas l q) eqn:E.
+    + assert (sget l q <> 0) by (apply shas_iff_nonzero; assumption). symmetry. apply negb_true_iff. lia.
+    + rewrite (sget_shas_false l q E). reflexivity.
+  - reflexivity.
+  - destruct Z as [N _]. unfold lz_nonzero, lz_get. destruct (zmem q (snd z)); [reflexivity|]. cbn [negb andb].
+    destruct (shas (fst z) q) eqn:E.
+    + assert (sget (fst z) q <> 0) by (apply shas_iff_nonzero; assumption). symmetry. apply negb_true_iff. lia.
+    + rewrite (sget_shas_false (fst z) q E). reflexivity.
+Qed.
+Lemma c_is_empty_content p c : 0 < p -> c_wf p c -> c_zf c -> (c_is_empty p c = true <-> forall q, c_get p c q = 0).
+Proof.
+  intros Hp W Z. destruct c as [l|h|z]; cbn [c_is_empty c_get c_zf c_wf] in *.
+  - destruct l as [|[r v] t]; [split; [reflexivity|reflexivity]|]. split; [discriminate|].
+    intros H. specialize (H r). cbn [sget] in H. rewrite Z.eqb_refl in H. specialize (Z (r, v) (or_introl eq_refl)). cbn [snd] in Z. contradiction.
+  - apply heap_is_empty_iff. exact Hp.
+  - apply lazyvec_is_empty_iff. unfold lz_wf. tauto.
+Qed.
+
+Definition m_zf (m : amat) : Prop := forall c, In (Some c) (a_cols m) -> c_zf c.
+Definition op_ok2 (p : Z) (o : op) : Prop :=
+  match o with OIns es => forall e, In e es -> snd e mod p <> 0 | _ => True end.
+
+Lemma zf_upd2 m s t f : m_zf m ->
+  (forall ct cs, a_col m t = Some ct -> a_col m s = Some cs -> c_zf (f ct cs)) -> m_zf (opt_or (a_upd2 m s t f) m).
+Proof.
+  intros Hz Hf. unfold a_upd2. destruct (a_col m t) as [ct|] eqn:Et; [|exact Hz]. destruct (a_col m s) as [cs|] eqn:Es; [|exact Hz].
+  cbn [opt_or]. intros c Hc. cbn [a_with_cols a_cols] in Hc. destruct (in_lset_some _ _ _ _ Hc) as [->|Hin]; [apply Hf; reflexivity|apply Hz; exact Hin].
+Qed.
+Lemma zf_upd1 m c f : m_zf m -> (forall x, a_col m c = Some x -> c_zf (f x)) -> m_zf (opt_or (a_upd1 m c f) m).
+Proof.
+  intros Hz Hf. unfold a_upd1. destruct (a_col m c) as [x|] eqn:Ex; [|exact Hz].
+  cbn [opt_or]. intros c0 Hc. cbn [a_with_cols a_cols] in Hc. destruct (in_lset_some _ _ _ _ Hc) as [->|Hin]; [apply Hf; reflexivity|apply Hz; exact Hin].
+Qed.
+Lemma zf_order mapc ra p m : m_zf m -> m_zf (a_order (all_fixed ra) mapc p m).
+Proof.
+  intros Hz. unfold a_order. destruct (a_sw m); [|exact Hz]. intros c Hc. cbn [a_cols] in Hc.
+  apply in_map_iff in Hc. destruct Hc as [[c0|] [Hc0 Hin]]; [|discriminate]. injection Hc0 as <-. apply c_reorder_keeps_zf. apply Hz. exact Hin.
+Qed.
+
+Theorem step_keeps_zero_free mapc ra kind p nr m o : prime p -> m_inv p nr kind m -> m_zf m -> op_ok nr o -> op_ok2 p o ->
+  m_zf (a_step mapc ra kind p m o).
+Proof.
+  intros Hpr Hinv Hz Hok Hok2. pose proof Hinv as [Hp [Hn [_ [_ Hcols]]]].
+  assert (Hci : forall j c, a_col m j = Some c -> col_inv p nr kind c /\ c_zf c).
+  { intros j c Hc. pose proof (a_col_in m j c Hc). split; [apply Hcols|apply Hz]; assumption. }
+  assert (Hmod : forall v, 0 <= v mod p < p) by (intros v; apply Z.mod_pos_bound; lia).
+  destruct o as [s t|s c t|c s t|c r|c|r1 r2|c1 c2| |idx| |es]; cbn [a_step] in *.
+  - unfold a_add. apply zf_upd2; [exact Hz|]. intros ct cs Ht Hs.
+    destruct (Hci t ct Ht) as [[W1 [_ K1]] Z1]. destruct (Hci s cs Hs) as [[W2 [_ K2]] Z2].
+    destruct (s =? t); [apply c_scale_keeps_zf; assumption|].
+    apply (column_ops_keep_zf p 0 ct cs); try assumption; try lia; apply same_kind_of_kind; congruence.
+  - unfold a_mta. apply zf_upd2; [exact Hz|]. intros ct cs Ht Hs.
+    destruct (Hci t ct Ht) as [[W1 [_ K1]] Z1]. destruct (Hci s cs Hs) as [[W2 [_ K2]] Z2].
+    destruct (s =? t); [apply c_scale_keeps_zf; assumption|].
+    apply (column_ops_keep_zf p (c mod p) ct cs); try assumption; [apply Hmod|apply same_kind_of_kind; congruence].
+  - unfold a_msa. apply zf_upd2; [exact Hz|]. intros ct cs Ht Hs.
+    destruct (Hci t ct Ht) as [[W1 [_ K1]] Z1]. destruct (Hci s cs Hs) as [[W2 [_ K2]] Z2].
+    destruct (s =? t); [apply c_scale_keeps_zf; assumption|]. rewrite c_msa_flags.
+    apply (column_ops_keep_zf p (c mod p) ct cs); try assumption; [apply Hmod|apply same_kind_of_kind; congruence].
+  - unfold a_zero_entry. apply zf_upd1; [exact Hz|]. intros x Hx. destruct (Hci c x Hx) as [[W _] Z]. apply c_clear_row_keeps_zf; assumption.
+  - unfold a_zero_col. apply zf_upd1; [exact Hz|]. intros x Hx. apply c_clear_keeps_zf.
+  - exact Hz.
+  - unfold a_swap_cols. destruct (a_col m c1) as [x1|] eqn:E1; [|exact Hz]. destruct (a_col m c2) as [x2|] eqn:E2; [|exact Hz].
+    cbn [opt_or]. intros c Hc. cbn [a_cols] in Hc.
+    destruct (in_lset_some _ _ _ _ Hc) as [->|Hin]; [apply (Hci c1); exact E1|].
+    destruct (in_lset_some _ _ _ _ Hin) as [->|Hin2]; [apply (Hci c2); exact E2|apply Hz; exact Hin2].
+  - apply zf_order. exact Hz.
+  - unfold a_remove_col. intros c Hc. cbn [a_with_cols a_cols] in Hc. apply Hz. apply in_lset_none in Hc. exact Hc.
+  - unfold a_remove_last. destruct (a_next m =? 0); [exact Hz|]. intros c Hc. cbn [a_with_cols a_cols] in Hc. apply Hz. apply in_lset_none in Hc. exact Hc.
+  - unfold a_insert, a_insert_at. intros c Hc. cbn [a_with_cols a_cols] in Hc.
+    assert (Hord : m_zf (a_order (all_fixed ra) mapc p m)) by (apply zf_order; exact Hz).
+    assert (Hn' : a_next (a_order (all_fixed ra) mapc p m) = a_next m) by (unfold a_order; destruct (a_sw m); reflexivity).
+    rewrite Hn', fill_holes_same in Hc.
+    assert (Hsm : forall (A : Type) (x : A), (if mapc then x else x) = x) by (intros; destruct mapc; reflexivity). rewrite Hsm in Hc.
+    destruct (in_lset_some _ _ _ _ Hc) as [->|Hin]; [apply c_make_zf; exact Hok2|apply Hord; exact Hin].
+Qed.
+
+(* outside the rows of the matrix a column reads 0 *)
+Lemma sget_notin l q : (forall e, In e l -> fst e <> q) -> sget l q = 0.
+Proof.
+  induction l as [|[r v] t IH]; intros H; [reflexivity|]. cbn [sget]. destruct (r =? q) eqn:E.
+  - specialize (H (r, v) (or_introl eq_refl)). cbn [fst] in H. lia.
+  - apply IH. intros e He. apply H. right. exact He.
+Qed.
+Lemma c_get_outside p nr c q : c_ok nr c -> ~ (0 <= q < Z.of_nat nr) -> c_get p c q = 0.
+Proof.
+  intros Ho Hq.
+  assert (H : forall l, rows_in nr l -> forall e, In e l -> fst e <> q) by (intros l Hl e He Heq; apply Hq; rewrite <- Heq; apply Hl; exact He).
+  destruct c as [l|h|z]; cbn [c_get c_ok] in *.
+  - apply sget_notin. apply H. tauto.
+  - apply hsum_notin. apply H. exact Ho.
+  - unfold lz_get. destruct (zmem q (snd z)); [reflexivity|]. apply sget_notin. apply H. tauto.
+Qed.
+
+(* the zero-entry and zero-column tests of the algorithm model answer what the dense matrix answers *)
+Theorem tests_read_dense p nr kind m c r : prime p -> m_inv p nr kind m -> m_zf m -> 0 <= r < Z.of_nat nr ->
+  a_is_zero_entry p m c r = d_is_zero_entry (a_abs p nr m) c r /\ a_is_zero_col p m c = d_is_zero_col (a_abs p nr m) c.
+Proof.
+  intros Hpr Hinv Hz Hr. pose proof Hinv as [Hp [Hn [[L1 [L2 [P1 P2]]] [_ Hcols]]]].
+  unfold a_is_zero_entry, a_is_zero_col, d_is_zero_entry, d_is_zero_col, d_col. rewrite a_abs_cols, lget_map by reflexivity.
+  fold (a_col m c). destruct (a_col m c) as [x|] eqn:Ex; cbn [abs_col]; [|split; reflexivity].
+  pose proof (a_col_in m c x Ex) as Hin. destruct (Hcols x Hin) as [W [O _]]. pose proof (Hz x Hin) as Zx.
+  split; f_equal.
+  - rewrite read_col_get by exact Hr. rewrite c_nonzero_content by exact Zx. apply negb_involutive.
+  - apply eq_true_iff_eq. rewrite (c_is_empty_content p x Hp W Zx). unfold dis_zero. rewrite forallb_forall. split.
+    + intros Hall v Hv. unfold read_col in Hv. apply in_map_iff in Hv. destruct Hv as [k [<- _]]. rewrite Hall. reflexivity.
+    + intros Hall q. destruct (Z_lt_dec q 0) as [Hneg|Hnn]; [apply (c_get_outside p nr x q O); lia|].
+      destruct (Z_lt_dec q (Z.of_nat nr)) as [Hlt|Hge]; [|apply (c_get_outside p nr x q O); lia].
+      destruct (P2 q ltac:(lia)) as [Bq Eq].
+      assert (Hv : In (c_get p x (pget (a_i2r m) (pget (a_r2i m) q))) (read_col p nr (a_i2r m) x)).
+      { unfold read_col. apply in_map_iff. exists (Z.to_nat (pget (a_r2i m) q)). split; [rewrite Z2Nat.id by lia; reflexivity|].
+        apply in_seq. lia. }
+      specialize (Hall _ Hv). rewrite Eq in Hall. lia.
+Qed.
+
+(* ... after every history *)
+Theorem history_tests_read_dense mapc ra kind p nr ops : kind = 0 \/ kind = 1 \/ kind = 2 -> prime p ->
+  Forall (op_ok nr) ops -> Forall (op_ok2 p) ops ->
+  forall c r, 0 <= r < Z.of_nat nr ->
+  let m := fold_left (a_step mapc ra kind p) ops (a_empty nr) in
+  let d := fold_left (d_step mapc p nr) ops (a_abs p nr (a_empty nr)) in
+  d_col (a_abs p nr m) c = d_col d c /\ a_is_zero_entry p m c r = d_is_zero_entry d c r /\ a_is_zero_col p m c = d_is_zero_col d c.
+Proof.
+  intros Hk Hpr Hok Hok2 c r Hr. cbv zeta.
+  assert (Hp : 0 < p) by (destruct Hpr; lia).
+  assert (Hgen : forall ops m, m_inv p nr kind m -> m_zf m -> Forall (op_ok nr) ops -> Forall (op_ok2 p) ops ->
+            m_zf (fold_left (a_step mapc ra kind p) ops m)).
+  { clear ops Hok Hok2. induction ops as [|o ops IH]; intros m Hinv Hz H1 H2; [exact Hz|].
+    inversion H1; subst. inversion H2; subst. cbn [fold_left]. apply IH; try assumption.
+    - apply (step_refines mapc ra kind p nr Hk m o); assumption.
+    - apply (step_keeps_zero_free mapc ra kind p nr m o); assumption. }
+  pose proof (m_inv_empty p nr kind Hp) as He.
+  assert (Hze : m_zf (a_empty nr)) by (intros x []).
+  destruct (history_refines mapc ra kind p nr Hk ops (a_empty nr) He Hok) as [Hinv Habs].
+  pose proof (Hgen ops (a_empty nr) He Hze Hok Hok2) as Hzf.
+  destruct (tests_read_dense p nr kind _ c r Hpr Hinv Hzf Hr) as [T1 T2].
+  rewrite <- Habs. split; [reflexivity|]. split; assumption.
+Qed.
+
+(* rows (ordered sparse representations, kind 0): once the pending permutation is applied, every row of the algorithm model
+   lists exactly the non-zero entries of that row of the dense matrix of the history *)
+Theorem history_rows_read_dense mapc ra p nr ops : prime p ->
+  Forall (op_ok nr) ops -> Forall (op_ok2 p) ops ->
+  forall r, 0 <= r < Z.of_nat nr ->
+  let m := a_order (all_fixed ra) mapc p (fold_left (a_step mapc ra 0 p) ops (a_empty nr)) in
+  let d := fold_left (d_step mapc p nr) ops (a_abs p nr (a_empty nr)) in
+  a_row m r = d_row d r.
+Proof.
+  intros Hpr Hok Hok2 r Hr. cbv zeta.
+  assert (Hk : 0 = 0 \/ 0 = 1 \/ 0 = 2) by (left; reflexivity).
+  assert (Hp : 0 < p) by (destruct Hpr; lia).
+  assert (Hgen : forall ops m, m_inv p nr 0 m -> m_zf m -> Forall (op_ok nr) ops -> Forall (op_ok2 p) ops ->
+            m_zf (fold_left (a_step mapc ra 0 p) ops m)).
+  { clear ops Hok Hok2. induction ops as [|o ops IH]; intros m Hinv Hz H1 H2; [exact Hz|].
+    inversion H1; subst. inversion H2; subst. cbn [fold_left]. apply IH; try assumption.
+    - apply (step_refines mapc ra 0 p nr Hk m o); assumption.
+    - apply (step_keeps_zero_free mapc ra 0 p nr m o); assumption. }
+  pose proof (m_inv_empty p nr 0 Hp) as He.
+  assert (Hze : m_zf (a_empty nr)) by (intros x []).
+  destruct (history_refines mapc ra 0 p nr Hk ops (a_empty nr) He Hok) as [Hinv Habs].
+  pose proof (Hgen ops (a_empty nr) He Hze Hok Hok2) as Hzf.
+  set (m0 := fold_left (a_step mapc ra 0 p) ops (a_empty nr)) in *.
+  destruct (m_inv_order mapc ra 0 p nr m0 Hinv) as [Hinv' [Hsw' [_ Habs']]].
+  pose proof (zf_order mapc ra p m0 Hzf) as Hzf'.
+  rewrite <- Habs, <- Habs'.
+  destruct Hinv' as [_ [_ [_ [Hid Hcols']]]]. destruct (Hid Hsw') as [Hi _].
+  apply rows_are_transpose; [exact Hi|exact Hr|].
+  intros c Hc. destruct (Hcols' c Hc) as [_ [_ Kc]]. pose proof (Hzf' c Hc) as Zc.
+  destruct c as [l|h|z]; cbn [c_kind] in Kc; try discriminate. exact Zc.
+Qed.
